@@ -347,3 +347,19 @@ Theorem path_run_total : forall os s, ConnPathsP.tab_ok (ConnPaths.ps_tab s) ->
   (forall s', ConnPaths.path_run s os = ConnPaths.PROk s' -> ConnPathsP.tab_ok (ConnPaths.ps_tab s')).
 Proof. exact ConnPathsP.path_run_total_proof. Qed.
 Print Assumptions path_run_total.
+
+(* receive_datagram WITH the table inside the packet loop (ConnDgram.dgram_loop_paths: first-flight reset, payload effects,
+   the "update network path" block after every packet that passed the gate): for EVERY byte string, every connection state
+   with dconn_ok, every oracle valuation, every table with tab_ok, every source address and every packet verdict, neither
+   the receive path nor the network-path bookkeeping raises, and both invariants hold again *)
+Theorem receive_datagram_paths_total : forall c data orcs s addr vs,
+  CodecProofs.bytes_ok data -> dconn_ok c -> ConnPathsP.tab_ok (ConnPaths.ps_tab s) ->
+  match receive_datagram_paths true c data orcs s addr vs with
+  | (DOk c' _, ConnPaths.PROk s') =>
+      dconn_ok c' /\
+      (c_close (d_st c) = None -> own_close_ok (po0 :: orcs) (c_close (d_st c'))) /\
+      ConnPathsP.tab_ok (ConnPaths.ps_tab s')
+  | _ => False
+  end.
+Proof. exact receive_datagram_paths_total_all. Qed.
+Print Assumptions receive_datagram_paths_total.
